@@ -198,6 +198,8 @@ def observables(o):
         q(om, "T", lambda: o.temperatureInC)
         q(om, "Tin", lambda: o.inputTemperatureInC)
         q(om, "material", lambda: type(o.material).__name__)
+        # the material state Component.finalizeLoadingFromDB restores: material.adjustTD(p.theoreticalDensityFrac)
+        q(om, "materialTD", lambda: o.material.getTD())
         q(om, "area", o.getArea)
         q(om, "volume", o.getVolume)
         q(om, "mass", o.getMass)
@@ -343,14 +345,24 @@ def project_file(group):
 # ------------------------------------------------------------------------------------------------------------
 # real histories: reactors built by armi from generated blueprints, mutated through public calls, written, loaded
 # ------------------------------------------------------------------------------------------------------------
-# parameters the loader legitimately re-derives or that steer geometry/time (DESIGN C04 modelling notes); never assigned
-# by the driver's AssignParam (they are still COMPARED)
+# The numeric persistent parameters the driver never assigns directly, each with its reason (they are still COMPARED unless
+# listed in NOT_COMPARED).  Every other numeric persistent parameter of every object is assigned a non-default value by
+# History.sweep() in every second history, so nothing the load path writes on its own can hide behind a default.
 NOT_ASSIGNED = {
-    "serialNum", "assemNum", "type", "flags", "nuclides", "numberDensities", "detailedNDens", "volume", "area", "mult",
-    "temperatureInC", "height", "heightBOL", "z", "zbottom", "ztop", "axMesh", "orientation", "xsType", "envGroup",
-    "xsTypeNum", "envGroupNum", "kgHM", "kgFis", "puFrac", "maxAssemNum", "cycle", "timeNode", "molesHmBOL", "massHmBOL",
-    "nHMAtBOL", "initialB10ComponentVol", "topIndex", "mergeWith", "customIsotopicsName", "theoreticalDensityFrac",
-    "displacementX", "displacementY", "multiplicity",
+    "serialNum": "identity of the object (nodes are matched by it)",
+    "assemNum": "identity: the loader derives assembly and block names from it (Assembly.makeNameFromAssemNum)",
+    "cycle": "selects the time-node group; set by the driver's advance()",
+    "timeNode": "selects the time-node group; set by the driver's advance()",
+    "height": "axial geometry: the assembly's grid and the block's z parameters are derived from it; changed only with the mesh",
+    "z": "re-derived from the block heights by Assembly.calculateZCoords on load (DESIGN C04: legitimately re-derived)",
+    "zbottom": "re-derived by Assembly.calculateZCoords on load",
+    "ztop": "re-derived by Assembly.calculateZCoords on load",
+    "jumpRing": "copied from the settings by Core.setOptionsFromCs on load (same settings => same value)",
+    "maxAssemNum": "reset by Core.processLoading to the largest assembly number in the core (DESIGN C04); not compared",
+    "theoreticalDensityFrac": "records material.getTD(): changed together with material.adjustTD by the SetTD mutation",
+    "kgHM": "recomputed from the composition by Core.setBlockMassParams on load and by the driver's settle() (DESIGN C04)",
+    "kgFis": "recomputed by Core.setBlockMassParams (DESIGN C04)",
+    "puFrac": "recomputed by Core.setBlockMassParams (DESIGN C04)",
 }
 # parameters without a default that AssignParam may set on SOME objects of a class (fixed list: stable finding keys)
 NODEFAULT_OK = ("zrFrac", "buRate")
@@ -397,6 +409,7 @@ class History:
         self.ev, self.how = [], []
         self.dbs = {}       # file tag -> Database (open for writing)
         self.paths = {}     # file tag -> path of the finished file
+        self.labels = {}    # slot -> state point name (None = the regular snapshot of the time node)
         self.fresh_job = None
         self.slots = {}     # slot -> (file tag, cycle, node)
         self.loaded = {}    # handle -> reactor
@@ -409,7 +422,7 @@ class History:
     # -- mutations (each returns a short description or None if not applicable) ---------------------------------
     def mutate(self, n):
         kinds = ["AssignParam"] * 3 + ["AssignShaped"] * 3 + ["SetComposition", "SetTemperature", "Swap", "Rotate", "Discharge",
-                                                               "AssignNoDefault", "SetGridOffset"]
+                                                               "AssignNoDefault", "SetGridOffset", "SetTD"]
         if self.family == "hex_third":
             kinds.append("GrowToFull")
         for _ in range(n):
@@ -542,6 +555,49 @@ class History:
         o.spatialGrid.offset = np.array(off)
         return "SetGridOffset %s %s" % (type(o).__name__, off)
 
+    def sweep(self, exclude=None):
+        """every numeric persistent parameter of every object gets a value different from its default and from what it had
+        (except the parameters listed in NOT_ASSIGNED): nothing the load path writes on its own can hide behind a default"""
+        import numpy as np
+        from armi.reactor import parameters
+
+        exclude = NOT_ASSIGNED if exclude is None else exclude
+        n = 0
+        for o in self._objs():
+            dims = set(getattr(o, "DIMENSION_NAMES", ()))
+            for pd in o.p.paramDefs:
+                if not pd.saveToDB or pd.name in exclude or pd.name in dims or pd.serializer is not None:
+                    continue
+                v = o.p.get(pd.name, pd.default)
+                if v is parameters.NoDefault or isinstance(v, (bool, np.bool_)):
+                    continue
+                if isinstance(v, (int, np.integer)):
+                    new = int(v) + self.rng.randrange(1, 4)
+                elif isinstance(v, (float, np.floating)):
+                    new = round(float(v) + self.rng.uniform(0.5, 9.5), 6)
+                else:
+                    continue
+                try:
+                    o.p[pd.name] = new
+                    n += 1
+                except Exception:  # noqa: BLE001  a parameter that refuses the value keeps the one it had
+                    pass
+        self.how.append("sweep of %d numeric parameters" % n)
+        return n
+
+    def m_SetTD(self):
+        """theoretical-density fraction of a material together with the component parameter that records it"""
+        from armi.reactor.components import Component
+
+        comps = [o for o in self._objs() if isinstance(o, Component) and type(o.material).__name__ in ("B4C", "UO2")]
+        if not comps:
+            return None
+        c = self.rng.choice(comps)
+        td = self.rng.choice((1.0, 0.9, 0.65))
+        c.material.adjustTD(td)
+        c.p.theoreticalDensityFrac = td
+        return "adjustTD %s %s" % (c.name, td)
+
     def m_AssignNoDefault(self):
         from armi.reactor.components import Component
 
@@ -632,21 +688,27 @@ class History:
         from armi.bookkeeping.db.database import Database
 
         if tag not in self.dbs:
-            db = Database("%s-%s.h5" % (self.id, tag), "w")
+            # armi's convention: the database of a case is <caseTitle>.h5 (Database.loadCS derives the case title, and with
+            # it the reactor's name, from the file name when the settings are read from the file)
+            db = Database("%s.h5" % self.w.cs.caseTitle if tag == "a" else "%s-%s.h5" % (self.id, tag), "w")
             with _cwd(self.wd):
                 db.open()
+                if tag == "a":
+                    db.writeInputsToDB(self.w.cs)
             self.dbs[tag] = db
         return self.dbs[tag]
 
-    def _write(self, r, slot, tag, call, extra):
+    def _write(self, r, slot, tag, call, extra, label=None):
         import h5py  # noqa: F401
         from armi.bookkeeping.db.database import getH5GroupName
 
         db = self._db(tag)
         cycle, node = int(r.p.cycle), int(r.p.timeNode)
         a = dict({"n": call, "s": slot}, **extra)
+        if label:
+            a["label"] = label
         try:
-            db.writeToDB(r)
+            db.writeToDB(r, statePointName=label)
         except (ValueError, NotImplementedError) as ex:
             self.ev.append({"a": dict(a, n="WriteRefused"), "post": {"exception": type(ex).__name__}})
             return False
@@ -656,13 +718,15 @@ class History:
             return False
         db.h5db.flush()
         self.slots[slot] = (tag, cycle, node)
+        self.labels[slot] = label
         self.slot_src[slot] = ("load@%d" % self.loaded_at[extra["h"]]) if "h" in extra else "live@%d" % len(self.ev)
-        self.ev.append({"a": a, "post": {"file": project_file(db.h5db[getH5GroupName(cycle, node)])}})
+        self.ev.append({"a": a, "post": {"file": project_file(db.h5db[getH5GroupName(cycle, node, label)])}})
         return True
 
-    def write(self, slot):
+    def write(self, slot, label=None):
+        """label: a named state point of the same time node (group cXXnYY<label>)"""
         before = self.details.get("live@%d" % len(self.ev), (None,))[0]
-        ok = self._write(self.r, slot, "a", "Write", {})
+        ok = self._write(self.r, slot, "a", "Write", {}, label=label)
         # frame condition "a write leaves the reactor as it was": equality of two projections of the same object
         after, _, _ = project(self.r)
         if before is not None and after != before:
@@ -672,28 +736,53 @@ class History:
     def resave(self, h, slot):
         return self._write(self.loaded[h], slot, "b", "Resave", {"h": h})
 
-    def load(self, slot, h):
+    def load(self, slot, h, via="load"):
+        """via: the public entry point used -- Database.load (settings + newly parsed blueprints given), Database.loadReadOnly
+        or DatabaseInterface.loadState (both read settings and blueprints from the file)"""
         from armi.bookkeeping.db.database import Database
         from harness import gen_reactor
 
         tag, cycle, node = self.slots[slot]
+        label = self.labels.get(slot)
         if tag in self.dbs:
             self.close_db(tag)
-        db = Database(self.paths[tag], "r")
-        db.open()
+        a = {"n": "Load", "s": slot, "h": h}
+        if via != "load":
+            a["via"] = via
+        db = None
         try:
-            r2 = db.load(cycle, node, cs=self.w.cs, bp=gen_reactor.fresh_blueprints(self.w))
+            if via == "state":
+                from armi.bookkeeping.db.databaseInterface import DatabaseInterface
+
+                class _Op:      # DatabaseInterface.loadState hands the loaded reactor to its operator
+                    r = None
+
+                    def reattach(self, r, cs=None):
+                        self.r = r
+
+                dbi = DatabaseInterface(self.r, self.w.cs)
+                dbi.o = _Op()
+                dbi.loadState(cycle, node, timeStepName=label or "", fileName=self.paths[tag])
+                r2 = dbi.o.r
+            else:
+                db = Database(self.paths[tag], "r")
+                db.open()
+                if via == "ro":
+                    r2 = db.loadReadOnly(cycle, node, statePointName=label)
+                else:
+                    r2 = db.load(cycle, node, cs=self.w.cs, bp=gen_reactor.fresh_blueprints(self.w), statePointName=label)
             self._proj(r2, "probe")      # a query that raises on the loaded reactor is part of the same observation
         except Exception as ex:  # noqa: BLE001
-            self.ev.append({"a": {"n": "Load", "s": slot, "h": h}, "post": {"exception": type(ex).__name__, "text": str(ex)[:300]}})
+            self.ev.append({"a": a, "post": {"exception": type(ex).__name__, "text": str(ex)[:300]}})
             self.dead = True
             return False
         finally:
-            db.close()
+            if db is not None:
+                db.close()
         self.loaded[h] = r2
         self.loaded_at[h] = len(self.ev) + 1
         nodes = self._proj(r2, "load@%d" % (len(self.ev) + 1))
-        self.ev.append({"a": {"n": "Load", "s": slot, "h": h}, "post": {"state": nodes}})
+        self.ev.append({"a": a, "post": {"state": nodes}})
         return True
 
     def close_db(self, tag):
@@ -758,25 +847,41 @@ class History:
 
 
 def play(hid, family, variant, seed, workdir, nmut=6, two_snapshots=True, fresh=False):
-    """the standard history:  State Write(1) [mutate State Write(2)] | Load(1,1) Load(1,2) [Load(2,3)] Resave(1,3) Load(3,4)
+    """the standard history:  State Write(1) [mutate (sweep) State Write(2) [mutate State Write(5, label "EOL")]] |
+    Load(1,1) Load(1,2 via load/loadReadOnly/loadState) [Load(2,3)] [Load(5,7 via loadReadOnly/loadState)] Resave(1,3) Load(3,4)
     and, with fresh=True, afterwards in a FRESH process Load(2 or 1, 5) Resave(5, 4), then here Load(4, 6) (run_histories)"""
     rng = random.Random(seed)
     h = History(hid, family, variant, rng, workdir)
+    k = int(hid[1:]) if hid[1:].isdigit() else seed
+    sweep_it, label_it = k % 2 == 0, k % 2 == 1 or k % 4 == 0
+    via2 = ("load", "ro", "state")[k % 3]
     try:
         h.mutate(rng.randrange(0, nmut + 1))
         h.advance(0)
         h.state()
         ok1 = h.write(1)
-        ok2 = False
+        ok2 = ok5 = False
         if two_snapshots:
             h.mutate(rng.randrange(1, nmut + 1))
+            if sweep_it:
+                h.sweep()
             h.advance(1)
             h.state()
             ok2 = h.write(2)
+            if ok2 and label_it:
+                # a named state point of the SAME time node holding a later state (visibly different: a core assembly has aged)
+                h.mutate(rng.randrange(0, 3))
+                for a in list(h.r.core)[:1]:
+                    a.p.daysSinceLastMove = float(a.p.daysSinceLastMove) + 1.25
+                h.how.append("daysSinceLastMove += 1.25")
+                h.state()
+                ok5 = h.write(5, label="EOL")
         if ok1 and not h.dead:
-            _ = h.load(1, 1) and h.load(1, 2)
+            _ = h.load(1, 1) and h.load(1, 2, via2)
         if ok2 and not h.dead:
-            h.load(2, 3)
+            h.load(2, 3, "ro" if ok5 else "load")
+        if ok5 and not h.dead:
+            h.load(5, 7, ("ro", "state")[k % 2] if k % 4 else "ro")
         if ok1 and not h.dead and h.resave(1, 3):
             h.load(3, 4)
         if fresh and ok1 and not h.dead:
@@ -1329,6 +1434,10 @@ def run(rep, tier, seed):
                 k = hname.split(" ")[0]
                 muts[k] = muts.get(k, 0) + 1
     rep.extra["mutations_applied"] = muts
+    rep.extra["numeric_parameters_never_assigned_by_the_driver"] = NOT_ASSIGNED
+    rep.extra["load_realisations"] = {v: sum(1 for t in traces for e in t["ev"] if e["a"]["n"] == "Load" and e["a"].get("via", "load") == v
+                                             and "p" not in e["a"]) for v in ("load", "ro", "state")}
+    rep.extra["labelled_snapshots"] = sum(1 for t in traces for e in t["ev"] if e["a"].get("label"))
     rep.assume(
         "I1 child order is compared in the canonical sibling order writer and loader apply (ARMI's sortReactor behaviour)",
         "I2 persistent parameters are compared by VALUE in the C05 normal form (python/numpy scalar and list/array types not "
@@ -1387,6 +1496,7 @@ def selftest():
     import numpy as np
     from armi.bookkeeping.db import database as D
     from armi.bookkeeping.db import layout as L
+    from armi.reactor import assemblies as AS
     from armi.reactor import grids, parameters
     from armi.reactor.components import component as C
     from armi.reactor.grids import structuredGrid as SG
@@ -1491,16 +1601,28 @@ def selftest():
             D.Database._readParams = old
             del os.environ["C04_FRESH_MUTANT"]
 
+    # built eagerly: a source text that no longer matches must fail the selftest, not count as a caught mutant
+    _sm0 = _src_mutant(J.JaggedArray.__init__, "offset += numpyArray.size", "offset += len(numpyArray)")
+    _sm1 = _src_mutant(SG.StructuredGrid.reduce, "None if not self._offset.any() else tuple(self._offset)", "tuple(self._offset) if (self._offset > 0).any() else None")
+    _sm2 = _src_mutant(L.Layout._createLayout, "comp.material.__class__.__name__", "comp.material.name")
+    _sm3 = _src_mutant(C.Component.finalizeLoadingFromDB, "self.material.adjustTD(self.p.theoreticalDensityFrac)", "self.p.theoreticalDensityFrac != 1.0 and self.material.adjustTD(self.p.theoreticalDensityFrac)")
+    _sm4 = _src_mutant(AS.Assembly.moveTo, "        self.p.daysSinceLastMove = 0.0\n", "    self.p.daysSinceLastMove = 0.0\n")
+    _sm5 = _src_mutant(D.Database.loadReadOnly, "self.load(cycle, node, statePointName=statePointName, allowMissing=True)", "self.load(cycle, node, allowMissing=True)")
     P = patched
     mutants = [
         ("seed 1: JaggedArray advances its offset by len(array) instead of array.size", lambda: P(
-            J.JaggedArray, "__init__", _src_mutant(J.JaggedArray.__init__, "offset += numpyArray.size", "offset += len(numpyArray)"))),
+            J.JaggedArray, "__init__", _sm0)),
         ("seed 2: StructuredGrid.reduce keeps an offset only if a component is positive", lambda: P(
-            SG.StructuredGrid, "reduce", _src_mutant(SG.StructuredGrid.reduce, "None if not self._offset.any() else tuple(self._offset)",
-                                                     "tuple(self._offset) if (self._offset > 0).any() else None"))),
+            SG.StructuredGrid, "reduce", _sm1)),
         ("seed 4: the layout stores material.name instead of the material's class name", lambda: P(
-            L.Layout, "_createLayout", _src_mutant(L.Layout._createLayout, "comp.material.__class__.__name__", "comp.material.name"))),
+            L.Layout, "_createLayout", _sm2)),
         ("seed 5: _readParams bypasses the parameter properties (no assigned flags after a load)", lambda: fresh_process_mutant("readparams_setattr")),
+        ("round 2 seed 3: finalizeLoadingFromDB skips adjustTD for a stored fraction of 1.0", lambda: P(
+            C.Component, "finalizeLoadingFromDB", _sm3)),
+        ("round 2 seed 4: Assembly.moveTo resets daysSinceLastMove also on a database load", lambda: P(
+            AS.Assembly, "moveTo", _sm4)),
+        ("round 2 seed 5: loadReadOnly does not forward the state point name", lambda: P(
+            D.Database, "loadReadOnly", _sm5)),
         ("_packLocationsV3 stores local instead of complete indices", lambda: P(L, "_packLocationsV3", L._packLocationsV2)),
         ("_packLocationsV3 labels free coordinates as grid indices", lambda: P(L, "_packLocationsV3", pack_coord_as_index)),
         ("_unpackLocationsV2 returns multi-index sub-locations reversed", lambda: P(L, "_unpackLocationsV2", unpack_reversed_multi)),
